@@ -65,7 +65,7 @@ func (t *Table) ColsOf(kinds ...Kind) []Col {
 var strAtoms = []string{
 	"a", "b", "A", "B", "c", "ab", "Ab", "x", "y", "Z", "0", "1", "10", "2", "9",
 	" ", "%", "_", "(", ")", "[", "]", ".", "*", "+", "?", "^", "$", "|", "-", ":", "'", "\"", ",",
-	"é", "日", "€", "{", "}", "\\", "/", "#", "=", "<", ">", "&", "!", "~", "`x",
+	"é", "日", "€", "{", "}", "\\", "/", "#", "=", "<", ">", "&", "!", "~", "`x", "\n", "\t",
 }
 
 // plainAtoms avoid characters that have special meaning in places where the
